@@ -85,6 +85,13 @@ namespace cnl::_impl {
                     output.exponent++;
                 }
             }
+        } else if constexpr (InRadix == OutRadix) {
+            // same radix: no rescaling needed, only the exponent moves
+            output.exponent = InExponent;
+            while (output.significand && !(output.significand % OutRadix)) {
+                output.significand /= OutRadix;
+                output.exponent++;
+            }
         } else {
             for (int in_exponent = InExponent;
                  in_exponent != 0 || !(output.significand % OutRadix);) {
